@@ -180,3 +180,20 @@ func VControllerStopping(c Controller) <-chan struct{} {
 	}
 	return nil
 }
+
+type vNopLog struct{}
+
+func (vNopLog) WithComponent(string) logutil.Log                      { return vNopLog{} }
+func (vNopLog) Trace(string, ...interface{}) string                   { return "" }
+func (vNopLog) Un(string)                                             {}
+func (vNopLog) Debugf(string, ...interface{})                         {}
+func (vNopLog) Infof(string, ...interface{})                          {}
+func (vNopLog) Warnf(string, ...interface{})                          {}
+func (vNopLog) Errorf(string, ...interface{})                         {}
+func (vNopLog) Fatalf(string, ...interface{})                         {}
+func (vNopLog) ErrWarn(err error, _ string, _ ...interface{}) error   { return err }
+func (vNopLog) ErrFatal(err error, _ string, _ ...interface{}) error  { return err }
+func (vNopLog) Err(err error, _ string, _ ...interface{}) error       { return err }
+
+// VNopLog returns a silent logger (native self-tests).
+func VNopLog() logutil.Log { return vNopLog{} }
